@@ -9,8 +9,10 @@
 (* in seeded chunk sizes.                                                                   *)
 EXTENDS Wire, Json
 
-CONSTANTS GenHdr,     \* mux headers to generate: subset of {"coord", "other", "nothing"}
-          GenEnds     \* subset of {"half", "disconnect"}
+CONSTANTS GenHdr,      \* mux headers to generate: subset of {"coord", "other", "nothing"}
+          GenEnds,     \* subset of {"half", "disconnect"}
+          FollowTypes, \* types of the frames after the first one (Types = no restriction)
+          FollowPays   \* payload classes of the frames after the first one (PayClasses = no restriction)
 
 VARIABLE hist
 gvars == <<vars, hist>>
@@ -35,7 +37,9 @@ GInit == Init /\ hist = <<>>
 
 GNext ==
   \/ \E h \in GenHdr \cap {"coord", "other"} : Connect(h) /\ hist' = Append(hist, [a |-> "connect", hdr |-> h])
-  \/ \E f \in Frames : Send(f) /\ inflight = NoFrame /\ hist' = Append(hist, FrameRec(f))
+  \/ CanSend /\ \E f \in Frames :
+        /\ nframes = 0 \/ (f.typ \in FollowTypes /\ f.pay \in FollowPays)
+        /\ Send(f) /\ hist' = Append(hist, FrameRec(f))
   \* the end of the connection: between frames, or inside a frame that only the end can complete
   \/ /\ "half" \in GenEnds /\ peer = "open" /\ Quiescent
      /\ (inflight = NoFrame \/ NeedsEnd(inflight))
